@@ -33,6 +33,12 @@ PROPERTIES = {
         "level": "proof",
         "explanation": "heap equality of step() vs first+second vs single_step sequences from any boundary state; sequencing errors leave the heap unchanged; done is a no-op",
     },
+    "C10": {
+        "modules": ["contracts.c10_replacement"],
+        "level": "proof",
+        "explanation": "per associativity: every well-formed policy state and every access symbolically; inductive invariants with ghost last-access times (LRU) and bottom-up path characterisation (PLRU)",
+        "configs": {"quick": {"LRU": [1, 2, 3, 4, 5, 6], "PLRU": [1, 2, 4, 8]}, "thorough": {"LRU": list(range(1, 11)), "PLRU": [1, 2, 4, 8, 16, 32]}},
+    },
     "C17": {
         "modules": ["contracts.c17_repr"],
         "level": "proof",
@@ -42,13 +48,16 @@ PROPERTIES = {
 }
 
 PENDING = "check not built yet in this session (planned, see DESIGN.md section 4)"
-NOT_APPLICABLE = {p: PENDING for p in ["C01", "C02", "C03", "C04", "C05", "C07", "C08", "C09", "C10", "C11", "C12", "C13", "C14", "C15", "C16"]}
+NOT_APPLICABLE = {p: PENDING for p in ["C01", "C02", "C03", "C04", "C05", "C07", "C08", "C09", "C11", "C12", "C13", "C14", "C15", "C16"]}
 
 _T = "contract-based deductive verification: VCs from symbolic execution of the real AST, z3"
 MANIFEST_TEXT = {
     "C06": {"text": "Proof for all memory images, accumulator values, program counters and max_pc: ToySimulation.step from any instruction-boundary state equals one step of an independently written reference machine on memory, accu, pc, halting, counters; the boundary invariant is inductive, so it holds for every program and history.",
             "note": "Assumes the fixedint model, the executor's Python semantics (A-ENGINE) and C18's memory contract (proved separately). Termination of run() not proved. Non-default unified_memory_size outside the property.",
             "technique": _T},
+    "C10": {"text": "Proof per enumerated associativity (LRU 1..6 quick / 1..10 thorough, PLRU 1,2,4,8 quick / up to 32 thorough): constructor establishes and access preserves the policy invariant for EVERY well-formed state and access, victim = oldest last access (LRU) / leaf reached by the tree bits (PLRU), ages ordered like last accesses, repeated access is a no-op. Unbounded histories by induction.",
+            "note": "Associativities outside the enumerated set are not proved (PROVED-PER-CONFIG). Ghost timestamps are specification state. That CacheSet informs the policy on every hit/fill is an obligation of C03/C09.",
+            "technique": _T + ", per-configuration inductive invariants with ghost state"},
     "C17": {"text": "Proof for every integer input and n in {12,16,32} that the four strings are, digit by digit and group by group, the two's-complement rendering of number mod 2^n; register and TOY getters proved to pass the current values.",
             "note": "Digit semantics of str(int)/format() trusted (A-BUILTIN). The memory-table clause (which words are listed) is a bounded run-time contract, labelled so in the evidence.",
             "technique": _T},
